@@ -17,7 +17,7 @@ from .state import ALLOC_BASE, Obligation, Outcome, Path
 from .values import (Bound, Builtin, ClassInfo, ClassRef, ClassTable, Closure, ExtFunc, FuncRef, ModRef,
                      SpecConst, Unsupported, Val, ann_elem, ann_fact, ann_mutable)
 
-EXTERN_MODULE_PREFIXES = ("mypy", "griffe", "logging", "pathlib", "json", "inspect", "copy", "itertools",
+EXTERN_MODULE_PREFIXES = ("mypy", "griffe", "logging", "pathlib", "io", "json", "inspect", "copy", "itertools",
                           "collections", "dataclasses", "types", "typing", "re", "enum", "abc", "argparse",
                           "importlib", "__future__")
 
@@ -267,7 +267,7 @@ class Ctx:
         if isinstance(obj, type):
             if obj.__module__ == "builtins":
                 return Builtin(obj.__name__)
-            if modname.split(".")[0] in ("mypy", "griffe", "pathlib"):
+            if modname.split(".")[0] in ("mypy", "griffe", "pathlib", "io", "_io"):
                 return ClassRef(self.ct.register_native_tree(obj))
             return ExtFunc(f"{obj.__module__}.{obj.__qualname__}")
         if isinstance(obj, (int, str, bool)) and not callable(obj):
